@@ -487,6 +487,44 @@ let do_kv line args res =
       else prop "retry_gives_up_only_after_budget" (calls >= 6 && calls <= fails) line ("calls " ^ icalls)
   | _ -> ()
 
+(* ------------------------------------------------------------ class lp: the updateTS loop end to end *)
+let lps = ref (init_lstate (zh "1") Z0)
+let lp_before = ref Z0
+let do_lp line args res =
+  let ms x = zmul (z_of_int x) (zh "f4240") in
+  let now = zh "de0b6b3a7640000" in
+  match args, res with
+  | [cfg; _steps], [] -> incr ncases; lps := init_lstate (ms (int_of_string ("0x" ^ cfg))) Z0
+  | "state" :: _, [ic; ia; _] ->
+      let m = hz !lps.li.cfg ^ "\t" ^ hz !lps.li.ada in
+      if m <> ic ^ "\t" ^ ia then mismatch line m
+  | ["step"; st], ic :: ia :: slack :: _ ->
+      let v = int_of_string (String.sub st 1 (String.length st - 1)) in
+      let before = !lps.li.ada and cfgb = !lps.li.cfg in
+      (match st.[0] with
+       | 'v' ->
+           (* PD's present has physical part P, the read ts lies v ms before it *)
+           let p = 10000000 in
+           lps := lstep !lps (LAdjust (compose_ts (z_of_int (p - v)) Z0, compose_ts (z_of_int p) Z0, now));
+           if !lps.lch <> None then lps := lstep !lps (LRecv (now, now, now))
+       | 's' -> lps := lstep !lps (LSet (ms v))
+       | _ -> ());
+      let m = hz !lps.li.cfg ^ "\t" ^ hz !lps.li.ada in
+      if m <> ic ^ "\t" ^ ia then begin
+        (* a tick of the updater refreshed the cache between the driver's PD step and the validation: the staleness is
+           then estimated from the cached record and includes the time since its arrival (<= the step's wall time) *)
+        let d = zsub (zh ia) !lps.li.ada in
+        if st.[0] = 'v' && hz !lps.li.cfg = ic && (Z0 <! d) && (d <=! zh slack) && zeq !lps.li.ada (zsub (ms v) (zh "5f5e100")) then begin
+          bump "lp:estimate-path"; lps := { !lps with li = { !lps.li with ada = zh ia }; lcur = zh ia }
+        end else mismatch line m
+      end;
+      bump ("lp:" ^ String.make 1 st.[0]);
+      (* oracles on the running loop *)
+      prop "interval_within_bounds" (inv_ok (zh ic) (zh ia)) line "";
+      if st.[0] = 'v' && v > 0 && (ms v <! before) && (min_interval <! before) && (min_interval <! cfgb) then
+        prop "interval_shrinks_in_one_step" ((zh ia <! before) && (min_interval <=! zh ia)) line ("from " ^ hz before)
+  | _ -> ()
+
 let () =
   let nlines = ref 0 in
   read_lines (fun line ->
@@ -499,7 +537,8 @@ let () =
         let verdict = List.nth rest (List.length rest - 1) in
         prop name (verdict = "pass") line ""
     | cls :: rest ->
-        let starts = (match rest with "begin" :: _ -> true | _ -> cls = "cw" || cls = "ar" || cls = "bg" || cls = "st" || cls = "mo" || cls = "iv" || cls = "sl" || cls = "fs" || cls = "rf" || cls = "tx" || cls = "tc" || cls = "kv") in
+        let starts = (match rest with "begin" :: _ -> true | _ -> cls = "cw" || cls = "ar" || cls = "bg" || cls = "st" || cls = "mo" || cls = "iv" || cls = "sl" || cls = "fs" || cls = "rf" || cls = "tx" || cls = "tc" || cls = "kv"
+                      || (cls = "lp" && (match rest with ("state" | "step") :: _ -> false | _ -> true))) in
         if starts then cur_case := [];
         cur_case := input_part line :: !cur_case;
         bump (cls ^ ":" ^ (match rest with op :: _ when cls <> "cw" && cls <> "sl" && cls <> "tc" -> op | _ -> ""));
@@ -514,6 +553,7 @@ let () =
            | "tx" -> do_tx line rest res
            | "tc" -> do_tc line rest res
            | "kv" -> do_kv line rest res
+           | "lp" -> do_lp line rest res
            | "iv" -> do_iv line rest res
            | "sl" -> do_sl line rest res
            | _ -> ())
